@@ -34,6 +34,7 @@ UNITS = {
     'ACCSESS': dict(template='accsess.rs', rlimit=30),
     'SENDINNER': dict(template='sendinner.rs', rlimit=30),
     'SESSWIRING': dict(template='sesswiring.rs', rlimit=30),
+    'CONNWIRING': dict(template='connwiring.rs', rlimit=30),
     'ACCDELEG': dict(template='accdeleg.rs', rlimit=30),
     'TXNDELEG': dict(template='txndeleg.rs', rlimit=30),
     'LCONNDELEG': dict(template='lconndeleg.rs', rlimit=30),
@@ -192,7 +193,7 @@ PROPS = {
             'a NON-transfer performative whose encoding exceeds the frame is refused with FramingError since fix 542518b ([C06.transport.non-transfer-whole]); nothing establishes that the engines handle that error gracefully (the connection engine treats it as a transport error)',
             'decoding under arbitrary read fragmentation is tokio_util LengthDelimitedCodec + FramedRead (third party), not verified']),
     'C01': dict(
-        units=['FRAMEENC', 'SESSION', 'SENDSPLIT', 'LINK', 'REASM', 'SESSENG', 'CONNENG', 'RESUME', 'BYTEREADER', 'WIRING', 'ACCLINK', 'LINKAPI', 'READERS', 'ACCDELEG', 'TXNDELEG', 'SENDINNER', 'SESSWIRING', 'LINKFLOW'],
+        units=['FRAMEENC', 'SESSION', 'SENDSPLIT', 'LINK', 'REASM', 'SESSENG', 'CONNENG', 'RESUME', 'BYTEREADER', 'WIRING', 'ACCLINK', 'LINKAPI', 'READERS', 'ACCDELEG', 'TXNDELEG', 'SENDINNER', 'SESSWIRING', 'LINKFLOW', 'CONNWIRING'],
         lemmas={'SENDSPLIT': ['lemma_link_expected', 'lemma_link_mids'], 'FRAMEENC': ['lemma_expected_properties', 'lemma_mids_payload']}, kani=[], level='proof', title='End-to-end delivery (sequential stages only)',
         assumptions=[ASYNC, ENGINE,
             'only the sequential stages are under contract: session hold-back/stamping (SESSION) and frame splitting (FRAMEENC); link-level split, reassembly and the codec round trip are separate units where built',
@@ -213,7 +214,7 @@ PROPS = {
             'the overrun error being turned into a detach frame by the link/engine is not verified']),
     'C12': dict(
         probes=[COMPOSITE_VARIANTS],
-        units=['CONN', 'CONNENG', 'HEADERS', 'HDRCODEC', 'HANDLES', 'LCONNDELEG', 'SESSWIRING'],
+        units=['CONN', 'CONNENG', 'HEADERS', 'HDRCODEC', 'HANDLES', 'LCONNDELEG', 'SESSWIRING', 'CONNWIRING'],
         lemmas={'CONNENG': ['lemma_extc_trans']}, kani=[], level='proof', title='Connection lifecycle',
         assumptions=[ASYNC,
             'that the connection engine event loop (select!) drives only these transition functions, and calls send_open/send_close once each, is not verified',
@@ -244,7 +245,7 @@ PROPS = {
             'controller side (unit TXNCTRL): declare_on_link, discharge_on_link, send_on_control_link, Transaction::discharge, OwnedTransaction::discharge, post_inner, TransactionRetirement::retire, DeliveryState::{accepted_or_else, declared_or_else} are under contract with the control link / sender / receiver as ghost-trace stand-ins and the Mutex around the control link erased; post_ref_inner, acquisition and the rollback-on-drop path are not',
             'the coordinator (unit TXNCOORD): on_declare, on_discharge, reject, handle_delivery_result under contract with the session requests and the receiver link as ghost-trace stand-ins', 'NOT DECIDED: the coordinator event loop (select!), abort of the remaining ids on Drop / when the controlling link goes away, several concurrent control links, freshness of a transaction id over the whole history (only among live ids)']),
     'C11': dict(
-        units=['SESSION', 'FRAMEENC', 'CONN', 'SENDSPLIT', 'CONNENG', 'ACCSESS', 'LINKATTACH', 'LINK', 'WIRING', 'ACCLINK', 'ACCDELEG', 'TXNDELEG', 'LCONNDELEG', 'SESSWIRING', 'SESSENG', 'TXN'],
+        units=['SESSION', 'FRAMEENC', 'CONN', 'SENDSPLIT', 'CONNENG', 'ACCSESS', 'LINKATTACH', 'LINK', 'WIRING', 'ACCLINK', 'ACCDELEG', 'TXNDELEG', 'LCONNDELEG', 'SESSWIRING', 'SESSENG', 'TXN', 'CONNWIRING'],
         lemmas={'SENDSPLIT': ['lemma_link_expected'], 'FRAMEENC': ['lemma_expected_properties']}, kani=[], level='proof', title='Identifiers',
         assumptions=[ASYNC, ENGINE,
             'fewer than 2^32 link handles are live in one session (handle = slab key as u32)',
@@ -257,7 +258,7 @@ PROPS = {
             '"returns only after the peer\'s answer" is decided as a safety clause (detach / close / end_session / wait_for_remote_end return Ok only once the peer\'s detach / End has been taken from the incoming channel; units LINKDETACH, SESSENG); "answered no later than the next operation" and "within bounded time" are liveness statements and are not decided',
             'Drop impls racing with the engine are not decided']),
     'C14': dict(
-        units=['CONNENG', 'SESSENG', 'LINK', 'LINKFLOW', 'SENDSPLIT', 'RECVLOOP', 'DISPOSER', 'HANDLES', 'DELIVFUT', 'WIRING', 'ACCLINK', 'CONN', 'ACCDELEG', 'TXNDELEG', 'LCONNDELEG', 'SESSWIRING', 'LINKAPI', 'SESSION'], kani=[], level='proof',
+        units=['CONNENG', 'SESSENG', 'LINK', 'LINKFLOW', 'SENDSPLIT', 'RECVLOOP', 'DISPOSER', 'HANDLES', 'DELIVFUT', 'WIRING', 'ACCLINK', 'CONN', 'ACCDELEG', 'TXNDELEG', 'LCONNDELEG', 'SESSWIRING', 'LINKAPI', 'SESSION', 'CONNWIRING'], kani=[], level='proof',
         title='Failure propagation (the safety half: WHICH error a stopped handle reports; stop reason published before the channels close)',
         assumptions=[
             'DECIDED (necessary conditions, per function): (a) the event loops of the connection and session engines publish the stop reason BEFORE they close the channels through which handles, sessions and links learn of the stop (an order obligation at the close calls), and that reason is the peer\'s Close / End error, the peer\'s plain close / end, or the connection\'s fate, as derived from the loop\'s outcome (tails of ConnectionEngine::event_loop and SessionEngine::event_loop, rule R32); (b) the result handed to the ConnectionHandle / SessionHandle is the peer\'s error when the peer supplied one; (c) every link operation under contract that finds the channel to its session closed (send_transfer, send_flow, dispose, dispose_consecutive, send_detach, recv_inner) fails with SessionStopped(reason read from the published cell) -- at once, without waiting -- and with IllegalState only when no reason was recorded',
